@@ -204,6 +204,7 @@ pub fn run19(args: &[&str]) -> String {
         "resp" => op_resp(&unhex(args[1])),
         "e2e" => op_e2e(args[1], args[2], args[3]),
         "fetch" => op_fetch(args[1].parse().unwrap(), &unhex(args[2])),
+        "respawn" => op_respawn(args[1].parse().unwrap(), args[2].parse().unwrap()),
         _ => panic!("unknown C19 op"),
     }
 }
@@ -351,8 +352,15 @@ fn gen_reply(r: &mut Rng) -> Vec<u8> {
 
 pub fn gen19(r: &mut Rng, n: usize, thorough: bool) -> Vec<String> {
     let mut out = vec![];
+    // what the manager does with a good reply and when it announces again (connection bookkeeping, model Swarm/Cand)
+    out.extend(crate::sess::gen_cand(r, if thorough { n / 40 } else { n / 25 }));
     for k in 0..n {
-        if !thorough && k == 5 {
+        if !thorough && (k == 7 || k == 8) {
+            // connections lost (no candidate left) while the tracker task is still retrying; one good announce only
+            out.push(["respawn 2 1", "respawn 3 2"][k - 7].to_string());
+        } else if thorough && (5..12).contains(&k) {
+            out.push(["respawn 1 1", "respawn 2 1", "respawn 2 2", "respawn 3 1", "respawn 3 3", "respawn 5 2", "respawn 2 4"][k - 5].to_string());
+        } else if !thorough && k == 5 {
             out.push("e2e 3 gfh 2".to_string());
         } else if !thorough && k == 6 {
             // a failure reason and nothing else going on (no probe, no peer): the next announce must still come
@@ -378,5 +386,88 @@ pub fn gen19(r: &mut Rng, n: usize, thorough: bool) -> Vec<String> {
             out.push(format!("resp {}", hex(&gen_reply(r))));
         }
     }
+    out
+}
+
+/// `respawn <kills> <good_at>`: the real manager (no event loop; commands handled one at a time exactly as the loop
+/// does) loses `kills` connections while it has no candidate left, so `handle_kill_req` asks for a new announce each
+/// time; the loopback tracker answers request number `good_at` (1-based) with a good reply and every other request
+/// with a failure. The manager must take the good reply and return to its loop although announces keep failing.
+/// → `resp=<y|n> manager=<free|blocked> held=<y|n>`
+fn op_respawn(kills: usize, good_at: usize) -> String {
+    use std::sync::atomic::{AtomicBool, AtomicUsize, Ordering};
+    use std::sync::Arc;
+    let listener = std::net::TcpListener::bind("127.0.0.1:0").expect("bind");
+    let port = listener.local_addr().unwrap().port();
+    let url = format!("http://127.0.0.1:{}/a", port);
+    let doc = format!(
+        "d8:announce{}:{}4:infod6:lengthi16e4:name1:N12:piece lengthi16e6:pieces20:AAAAABBBBBCCCCCDDDDDee",
+        url.len(),
+        url
+    );
+    let m = Metainfo::from_bencode(doc.as_bytes()).expect("metainfo");
+    let stop = Arc::new(AtomicBool::new(false));
+    let nreq = Arc::new(AtomicUsize::new(0));
+    let (stop2, nreq2) = (stop.clone(), nreq.clone());
+    let nreq = nreq.clone();
+    let server = std::thread::spawn(move || {
+        while !stop2.load(Ordering::SeqCst) {
+            let n = nreq2.load(Ordering::SeqCst) + 1;
+            let r = if n == good_at {
+                serve_one(&listener, "200 OK", b"d8:intervali1800e5:peerslee")
+            } else {
+                serve_one(&listener, "200 OK", b"d14:failure reason9:too oftene")
+            };
+            if r.is_some() {
+                nreq2.fetch_add(1, Ordering::SeqCst);
+            }
+        }
+    });
+    let rt = tokio::runtime::Builder::new_current_thread().enable_all().build().unwrap();
+    let out = rt.block_on(async move {
+        let mut session = rdest::Session::new(m, *b"-VERIF-0000000000001");
+        for i in 0..kills {
+            let cmd = PeerCmd::KillReq { addr: format!("10.9.9.{}:1", i + 1), reason: "gone".to_string() };
+            let _ = session.verif_handle_peer_cmd(cmd).await;
+            // let the new task send its first announce before the next connection is lost
+            tokio::time::sleep(std::time::Duration::from_millis(150)).await;
+        }
+        let t0 = std::time::Instant::now();
+        let mut got_resp = false;
+        let mut blocked = false;
+        while t0.elapsed().as_secs() < 8 {
+            let cmd = match tokio::time::timeout(std::time::Duration::from_millis(500), session.verif_recv_tracker_cmd()).await {
+                Ok(Some(c)) => c,
+                _ => continue,
+            };
+            let is_resp = matches!(cmd, TrackerCmd::TrackerResp(_));
+            let handled = tokio::time::timeout(std::time::Duration::from_millis(3500), session.verif_handle_tracker_cmd(cmd)).await;
+            if handled.is_err() {
+                blocked = true;
+                break;
+            }
+            if is_resp {
+                got_resp = true;
+                break;
+            }
+        }
+        // once the reply has been taken nobody should be announcing any more
+        let before = nreq.load(Ordering::SeqCst);
+        if got_resp {
+            tokio::time::sleep(std::time::Duration::from_millis(1600)).await;
+        }
+        let later = nreq.load(Ordering::SeqCst) - before;
+        format!(
+            "resp={} manager={} held={} later={}",
+            if got_resp || blocked { "y" } else { "n" },
+            if blocked { "blocked" } else { "free" },
+            if session.verif_tracker_job_held() { "y" } else { "n" },
+            later.min(1)
+        )
+    });
+    stop.store(true, std::sync::atomic::Ordering::SeqCst);
+    drop(rt);
+    let _ = std::net::TcpStream::connect(("127.0.0.1", port));
+    let _ = server.join();
     out
 }
